@@ -16,6 +16,8 @@ RULE = ("sequences of 1-4 calls of @snark-wrapped functions in one run. Argument
         "solution) and equals the result; the returned structure equals what the undecorated body returns on the plain "
         "arguments; all constraints satisfied; keyword arguments raise ValueError and leave no trace. Non-trivial = "
         ">= 2 numeric leaves of different types and >= 2 secret results, or >= 2 calls; distinct by case digest.")
+RULE += " Extensions (seeded rounds 10-15): default parameters left alone, structures nested up to 2000 levels or with little stack left, one decorated function for all calls with refused calls in between, small constant powers as results."
+
 
 R = 8   # fixed-point resolution used by the checks (library default)
 
